@@ -108,14 +108,18 @@ def grid_calls(tfs):
     return calls
 
 
-def gen_grid_traces(rep, max_o: int, full: bool):
-    tfs = term_frames(full)
-    calls = grid_calls(tfs)
+def gen_grid_traces(rep, max_o: int, full_upto: int):
+    """One trace of bulk set_size calls per (variant, original).  Originals up to `full_upto`
+    get every terminal/frame combination of the MC_Sizing grid, larger ones the subset."""
+    tfs_sub, tfs_full = term_frames(False), term_frames(True)
+    calls_sub, calls_full = grid_calls(tfs_sub), grid_calls(tfs_full)
     traces = []
+    ncalls = 0
     for v in variants():
         base = dict(cw=v["cw"], ch=v["ch"], rn=v["rn"], rd=v["rd"])
         for ow in range(1, max_o + 1):
             for oh in range(1, max_o + 1):
+                calls = calls_full if max(ow, oh) <= full_upto else calls_sub
                 try:
                     recs = X.run_calls(v["fam"], ow, oh, base, calls)
                 except X.ExecError as e:
@@ -123,9 +127,10 @@ def gen_grid_traces(rep, max_o: int, full: bool):
                                   {"kind": "calls", "fam": v["fam"], "ow": ow, "oh": oh, "base": base,
                                    "calls": calls})
                     continue
+                ncalls += len(recs)
                 traces.append(dict(fam=v["fam"], ow=ow, oh=oh, base=base, ev=[], calls=recs,
                                    origin="grid"))
-    return traces, len(calls), len(tfs)
+    return traces, ncalls, (len(tfs_sub), len(tfs_full))
 
 
 # ------------------------------------------------------------ (ii) large inputs, (iii) histories
@@ -506,10 +511,11 @@ def main(rep: Report, replay: dict | None) -> None:
                            "MC_SizingHist_thorough.cfg" if thorough else "MC_SizingHist.cfg",
                            workers=1, timeout=900, coverage=True, deadlock=False)
         # meanwhile: record the real code ...
-        max_o = 16 if thorough else 10
-        grid, ncalls, ntf = gen_grid_traces(rep, max_o, full=thorough)
+        max_o, full_upto = (24, 10) if thorough else (10, 0)
+        grid, ncalls, ntf = gen_grid_traces(rep, max_o, full_upto)
         rep.extra["grid"] = {"originals": f"1..{max_o} x 1..{max_o}", "variants": len(variants()),
-                             "terminal_frames": ntf, "calls_per_image": ncalls, "images": len(grid)}
+                             "terminal_frames": ntf[0], "terminal_frames_for_originals_upto_%d" % full_upto: ntf[1],
+                             "real_set_size_calls": ncalls, "images": len(grid)}
         phases["record_grid"] = round(time.time() - t0, 1)
         # ... and have TLC judge it (code -> spec) while recording goes on
         f_vgrid = ex.submit(validate, grid, "c04grid", max(1, math.ceil(len(grid) / (8 if thorough else 4))), 4, 4)
@@ -580,7 +586,7 @@ def main(rep: Report, replay: dict | None) -> None:
     rep.exhaustive = not rep.violations
     rep.extra["exhaustive_space"] = (
         f"real set_size calls: {len(variants())} (family, cell size | ratio) variants x originals 1..{max_o}^2 x "
-        f"{ntf} terminal/frame combinations x 4 Size members + given widths 1..{MAXTC} + given heights 1..{MAXTL}; "
+        f"{ntf[0]} terminal/frame combinations ({ntf[1]} for originals <= {full_upto}) x 4 Size members + given widths 1..{MAXTC} + given heights 1..{MAXTL}; "
         "model: MC_Sizing grid; history machine: all transitions"
     )
 
